@@ -40,6 +40,8 @@ func cmdargsMain(args []string) error {
 		return cmdargsRecord(m)
 	case "rerun":
 		return cmdargsRerun(m)
+	case "longrun":
+		return cmdargsLongRun(m)
 	}
 	return fmt.Errorf("cmdargs: unknown mode %s", args[0])
 }
